@@ -418,9 +418,56 @@ type c17Ctx struct {
 	context.Context
 	err         error
 	hasDeadline bool
+	parent      context.Context // set for contexts derived by the code under test (WithTimeout, WithCancel, ...)
 }
 
-func (c *c17Ctx) Err() error { return c.err }
+func (c *c17Ctx) Err() error {
+	if c.err != nil || c.parent == nil {
+		return c.err
+	}
+	return c.parent.Err()
+}
+
+// a context derived by the code under test: done when its parent is done (its own timer is not part of the
+// model - a bound the host adds on top of the caller's context can only end the call earlier)
+//
+//vsym:stub context.WithTimeout = c17WithTimeout
+//vsym:stub context.WithDeadline = c17WithDeadline
+//vsym:stub context.WithCancel = c17WithCancel
+
+func c17Derive(parent context.Context, deadline bool) (context.Context, context.CancelFunc) {
+	if _, has := parent.Deadline(); has {
+		deadline = true
+	}
+	return &c17Ctx{Context: parent, parent: parent, hasDeadline: deadline}, func() {}
+}
+
+func c17WithTimeout(parent context.Context, d time.Duration) (context.Context, context.CancelFunc) {
+	return c17Derive(parent, true)
+}
+
+func c17WithDeadline(parent context.Context, d time.Time) (context.Context, context.CancelFunc) {
+	return c17Derive(parent, true)
+}
+
+func c17WithCancel(parent context.Context) (context.Context, context.CancelFunc) {
+	return c17Derive(parent, false)
+}
+
+// c17FromCaller: ctx is the caller's context or derived from it
+func c17FromCaller(ctx context.Context) bool {
+	for i := 0; i < 8 && ctx != nil; i++ {
+		cc, ok := ctx.(*c17Ctx)
+		if !ok {
+			return false
+		}
+		if cc == c17Env.ctx {
+			return true
+		}
+		ctx = cc.parent
+	}
+	return false
+}
 
 // Deadline: only a deadline context reports one; a context ended by cancellation does not
 func (c *c17Ctx) Deadline() (time.Time, bool) {
@@ -435,7 +482,7 @@ func (c *c17Ctx) Deadline() (time.Time, bool) {
 
 func c17CommandContext(ctx context.Context, name string, arg ...string) *exec.Cmd {
 	c := &exec.Cmd{Path: name, Args: append([]string{name}, arg...)}
-	if cc, ok := ctx.(*c17Ctx); ok && cc == c17Env.ctx {
+	if c17FromCaller(ctx) {
 		c17Env.cmdOK = true
 	}
 	return c
@@ -553,7 +600,7 @@ func VsymC17Exec() {
 	e.ctx = &c17Ctx{Context: context.Background(), hasDeadline: e.hasDeadline && !e.cancelOnly}
 	c17Env = e
 	stdout, stderr, err := execCommander{}.Output(e.ctx, "/plugins/foo/notation-foo", plugin.CommandGetMetadata, []byte("{}"))
-	vr.Assert(e.runCalls == 1 && e.cmdOK, "the command is created with the caller's context and run once")
+	vr.Assert(e.runCalls == 1 && e.cmdOK, "the command is created with the caller's context (or one derived from it: the caller's cancellation reaches the process) and run once")
 	vr.Assert(e.capOK, "both output streams of the process go through distinct LimitedWriters with the fixed cap")
 	ok := !e.killed && e.exitOK && e.returnedAt >= 0
 	if err == nil {
@@ -633,6 +680,8 @@ func c17ExecNative(e *c17ProcEnv) {
 		vr.Reach("process failed")
 	}
 	vr.Assert(el < 300*time.Millisecond+10*time.Second, "the call returns within a bounded delay after its context is cancelled or expires, whatever the plugin or its descendants do")
+	// a process that would run on for 20 s ended with the context: the caller's cancellation reached it
+	vr.Assert(exitsFirst || el < 300*time.Millisecond+10*time.Second, "the command is created with the caller's context (or one derived from it: the caller's cancellation reaches the process) and run once")
 	if !exitsFirst {
 		vr.Reach("killed at the deadline")
 	}
